@@ -96,6 +96,7 @@ func init() {
 		"runtime.Gosched":                      func(fr *frame, args []value) value { fr.i.yield(); return nil },
 		"runtime.GOROOT":                       extGOROOT,
 		"runtime.Caller":                       extCaller,
+		"runtime.Goexit":                       extGoexit,
 		"runtime.Callers":                      extCallers,
 		"runtime.CallersFrames":                extCallersFrames,
 		"(*runtime.Frames).Next":               extFramesNext,
@@ -231,6 +232,9 @@ func frameFile(fr *frame) string {
 	if fr.goexit {
 		return "/goroot/src/runtime/asm_amd64.s"
 	}
+	if fr.trunner {
+		return "/goroot/src/testing/testing.go"
+	}
 	if fr.fileOverride != "" {
 		return fr.fileOverride
 	}
@@ -258,6 +262,9 @@ func extCaller(fr *frame, args []value) value {
 		if f.goexit {
 			return tuple{i.pcFor("runtime.goexit"), frameFile(f), 1, true}
 		}
+		if f.trunner {
+			return tuple{i.pcFor("testing.tRunner"), frameFile(f), 1, true}
+		}
 		pc := i.pcFor(f.fn.String())
 		return tuple{pc, frameFile(f), 1, true}
 	}
@@ -267,6 +274,13 @@ func extCaller(fr *frame, args []value) value {
 	for g := fr.caller; g != nil; g = g.caller {
 		depth++
 		spawned = spawned || g.goexit
+		if g.trunner {
+			// beyond a sub-test's tRunner there is only runtime.goexit
+			if skip == depth {
+				return tuple{i.pcFor("runtime.goexit"), "/goroot/src/runtime/asm_amd64.s", 1, true}
+			}
+			return tuple{uintptr(0), "", 0, false}
+		}
 	}
 	if spawned {
 		// a goroutine started with `go`: nothing above runtime.goexit
@@ -276,6 +290,16 @@ func extCaller(fr *frame, args []value) value {
 		return tuple{i.pcFor("testing.tRunner"), "/goroot/src/testing/testing.go", 1, true}
 	}
 	return tuple{uintptr(0), "", 0, false}
+}
+
+// extGoexit: runtime.Goexit on a spawned thread (on the harness's own thread it would end the
+// harness, which no harness wants: reported as inconclusive).
+func extGoexit(fr *frame, args []value) value {
+	i := fr.i
+	if i.path.sched == nil || i.path.sched.cur.id == 0 {
+		i.abort("runtime.Goexit on the harness's main thread")
+	}
+	panic(goexitSignal{})
 }
 
 func (i *interpreter) pcFor(name string) uintptr {
@@ -312,6 +336,12 @@ func extCallers(fr *frame, args []value) value {
 		if f.goexit {
 			spawned = true
 			all = append(all, i.pcForFile("runtime.goexit", frameFile(f)))
+			continue
+		}
+		if f.trunner {
+			spawned = true
+			all = append(all, i.pcForFile("testing.tRunner", frameFile(f)))
+			all = append(all, i.pcForFile("runtime.goexit", "/goroot/src/runtime/asm_amd64.s"))
 			continue
 		}
 		all = append(all, i.pcForFile(f.fn.String(), frameFile(f)))
